@@ -150,7 +150,20 @@ static void run_case(toks & tk, const std::string & certdir)
     ssl::context_ptr ctx;
     if (tls)
     {
-        ctx = ssl::create_context(ssl::context::tls_client, resume);
+        // every method a client may create its context with: the *_client ones and the generic ones (chosen by the
+        // configuration, so that a scenario always gets the same one)
+        int pick = (mode == transfer_mode::active ? 8 : 0) + (rfc ? 4 : 0) + (type == transfer_type::ascii ? 2 : 0) + (resume ? 1 : 0);
+        ssl::context::method method;
+        switch (pick % 6)
+        {
+        case 0: method = ssl::context::tls_client; break;
+        case 1: method = ssl::context::tls; break;
+        case 2: method = ssl::context::sslv23_client; break;
+        case 3: method = ssl::context::sslv23; break;
+        case 4: method = tlsver == "13" ? ssl::context::tlsv13_client : tlsver == "12" ? ssl::context::tlsv12_client : ssl::context::tls_client; break;
+        default: method = tlsver == "13" ? ssl::context::tlsv13 : tlsver == "12" ? ssl::context::tlsv12 : ssl::context::tls; break;
+        }
+        ctx = ssl::create_context(method, resume);
         if (tlsver == "12") SSL_CTX_set_max_proto_version(ctx->native_handle(), TLS1_2_VERSION);
         if (tlsver == "13") SSL_CTX_set_min_proto_version(ctx->native_handle(), TLS1_3_VERSION);
         if (verify == "trusted")
